@@ -210,4 +210,5 @@ def bincount(x, weights, minlength):
                     cnt(k, j + 1) == cnt(k, j) + z3.If(snap(j) == k, 1, 0)), arity=2)
     r = SymArr.fresh((ln,), lambda k: cnt(k, m), "int", _np.int64)
     r.bc = {"cnt": cnt, "x": snap, "m": m}
+    c.ghost.setdefault("bincount", []).append({"cnt": cnt, "x": snap, "m": m, "len": ln})
     return r
